@@ -528,7 +528,11 @@ func (l *loop) schedule() {
 	}
 	l.emit(J{"op": "schedule", "mode": mode, "draws": draws, "shards": res.ShardsOrder, "hosts": res.HostsOrder, "repairs": reps})
 	if mode == "maintain" {
-		jd := &schedx.Judge{Run: l.run, Seq: l.seq, Idx: len(l.opsLog), Ops: append([]J{}, l.opsLog...), ConsistentHistory: true}
+		// in the closed loop a recorded stray that is not killed keeps its NodeHost occupied for the shard (one replica per
+		// shard per NodeHost): a member placed there cannot start, so a missing KILL is a failing input of the healing
+		// property as well
+		jd := &schedx.Judge{Run: l.run, Seq: l.seq, Idx: len(l.opsLog), Ops: append([]J{}, l.opsLog...), ConsistentHistory: true,
+			Also: map[string][]string{"kill-request-missing": {"C01"}}}
 		jd.Maintain(schedx.ParseContext(cj), &res, strings.Contains(res.Panic, "random draws exhausted"), draws)
 	} else {
 		jd := &schedx.Judge{Run: l.run, Seq: l.seq, Idx: len(l.opsLog), Ops: append([]J{}, l.opsLog...), ConsistentHistory: true, Draws: draws}
